@@ -104,8 +104,11 @@ def shape(k, i):
         # the same class, static method, helper namespace and free function (identical signatures) in two sibling scopes
         def half(side):
             return D.ns(side + s, [D.cls('Grid', [D.ctor('Grid'), D.static(single(T('double')), 'Spacing', [arg(T('double'), 'a', '1.0')]),
-                                                  D.method(single(I), 'size', [arg(I, 'k', '2')], 1)]),
-                                   D.ns('util', [D.func(single(T('double')), 'norm', [arg(T('double'), 'x'), arg(I, 'p', '2')])])])
+                                                  D.static(single(I), 'Create', [arg(T('double'), 'x'), arg(T('double'), 'y', '0.0'), arg(T('double'), 'th', '0.0')]),
+                                                  D.method(single(I), 'size', [arg(I, 'k', '2')], 1)], v=1),
+                                   D.ns('util', [D.func(single(T('double')), 'norm', [arg(T('double'), 'x'), arg(I, 'p', '2')]),
+                                                 # a second function whose name differs in letter case only
+                                                 D.func(single(T('double')), 'Norm', [arg(T('double'), 'x')])])])
         return [half('left'), half('right')]
     if k == 'rolenames':
         C = 'Rn' + s
